@@ -32,7 +32,8 @@ META = dict(
     outside=[
         "fitting (scipy.linalg / scikit-learn solvers); 'interpolating models reproduce their learning data' is therefore only observed numerically "
         "(concrete mode, RBF with smooth=0), not decided by the solver",
-        "PCE, MoE, Gaussian processes, random forests, PCA/PLS/KPCA/KLSVD, Power/BoxCox/YeoJohnson (scikit-learn PowerTransformer), JamesonSensor, "
+        "PCE, soft-classification MoE (its Jacobian is not implemented), the clustering / classification of the hard MoE (scikit-learn KMeans / KNN: "
+        "replaced by a contract stub, see stubs), Gaussian processes, random forests, PCA/PLS/KPCA/KLSVD, Power/BoxCox/YeoJohnson (scikit-learn PowerTransformer), JamesonSensor, "
         "penalised linear models, user-defined RBF kernels and norms",
         "that SciPy's Rbf.__call__ (compiled cdist) equals sum_k nodes_k h(|x-xi_k|): confirmed numerically in concrete mode only",
         "free (unpinned) 2-input queries for the gaussian / thin_plate fitted models and thin_plate with eps != 1 at model level: z3 answers unknown "
@@ -53,6 +54,9 @@ META = dict(
         "sklearn estimator._validate_data -> identity (input validation / float64 conversion) on the fitted LinearRegression and PolynomialFeatures instances; "
         "their pure-numpy predict / transform bodies run on the symbols",
         "SurrogateDiscipline.default_grammar_type = SIMPLE, cache disabled",
+        "MOERegressor (hard): clusterer, classifier and experts are fitted concretely; at query time classifier._predict (compiled scikit-learn KNN) is a "
+        "contract stub returning, per sample, an arbitrary class in range(n_clusters) chosen by the solver (also in concrete mode); gemseo's own "
+        "classifier.predict / predict_proba(hard) / formatters still run; moe.py's module-level zeros -> object arrays of 0.0",
         "symgem/diff.py (term differentiator) is part of the trusted base: unit-tested on closed forms in every run (harness 'diff') and cross-checked with "
         "sympy.diff on every term it is used on in the thorough tier",
     ],
@@ -512,6 +516,112 @@ def h_surrogate(ctx, cfg):
 
 
 # ------------------------------------------------------------------------------------------------------------
+# mixture of experts (hard classification): the class of a query point is chosen by the solver
+# ------------------------------------------------------------------------------------------------------------
+def _moe_dataset():
+    """20 samples on a 5 x 4 grid of [0,2] x [-1,2] with a kink along x1 + x2 = 2 (two well separated regimes)."""
+    from gemseo.datasets.io_dataset import IODataset
+
+    pts = np.array([[0.5 * i, -1.0 + j] for i in range(5) for j in range(4)])
+    a, b = pts[:, 0], pts[:, 1]
+    kink = (a + b > 2.0) * 1.0
+    data = IODataset(dataset_name="moe")
+    data.add_input_variable("x", pts)
+    data.add_output_variable("y", (1 + 2 * a - 3 * b + 0.5 * a * b + 20 * kink * (a + b - 2.0))[:, None])
+    data.add_output_variable("z", np.array([[p * p - q, 5 * q + 10 * k] for p, q, k in zip(a, b, kink)]))
+    return data
+
+
+def _affine(transformer, values, inverse=False):
+    """Oracle-side restatement of a fitted scaler: v*coefficient + offset, or its inverse, component by component."""
+    c, o = [float(v) for v in transformer.coefficient], [float(v) for v in transformer.offset]
+    if inverse:
+        return [(v - o[k]) / c[k] for k, v in enumerate(values)]
+    return [v * c[k] + o[k] for k, v in enumerate(values)]
+
+
+def h_moe(ctx, cfg):
+    """Hard mixture of experts: predict(x) is the chosen expert's public prediction, predict_jacobian(x) its derivative.
+
+    Clustering, classification and the experts are fitted concretely; at query time the compiled classifier
+    (``classifier._predict``, scikit-learn) is replaced by a contract stub returning the class the solver chose for each
+    sample (in concrete mode too, so that the replayed class is the model's choice).
+    """
+    import gemseo.mlearning.regression.algos.moe as moe_module
+    from gemseo.mlearning.regression.algos.base_regressor import BaseRegressor
+    from gemseo.mlearning.regression.algos.moe import MOERegressor
+    from symgem.core import SymArray
+
+    data = _moe_dataset()
+    top = BaseRegressor.DEFAULT_TRANSFORMER if cfg["moe_transformer"] == "default" else {}
+    moe = MOERegressor(data, transformer=top)
+    moe.set_clusterer("KMeans", n_clusters=2, random_state=0)
+    kw = dict(degree=2) if cfg["expert"] == "PolynomialRegressor" else {}
+    moe.set_regressor(cfg["expert"], transformer={k: _transformer(v) for k, v in cfg["expert_transformer"].items()}, **kw)
+    moe.learn()
+    n_in, n_out, n_cls = 2, 3, moe.n_clusters
+    ctx.check("two clusters, one expert each", ctx.true() if n_cls == 2 and len(moe.regress_models) == 2 else ctx.false())
+    for expert in moe.regress_models:
+        _install_sklearn_stub(ctx, expert.algo)
+        if cfg["expert"] == "PolynomialRegressor":
+            _install_sklearn_stub(ctx, expert._poly)
+    # float64 work arrays of moe.py hold symbols: value-preserving object arrays
+    ctx.patch(moe_module, "zeros", lambda shape, *a, **k: SymArray(np.zeros(shape, dtype=object) + 0.0))
+    ns = cfg.get("samples", 1)
+    classes = [ctx.choice(f"class{s}", n_cls) for s in range(ns)]
+    current = {"classes": list(classes)}
+
+    def classify(input_data):  # contract of the compiled classifier: some class in range(n_clusters) per sample
+        if len(input_data) != len(current["classes"]):
+            raise AssertionError("classifier stub called with an unexpected number of samples")
+        return np.array(current["classes"], dtype=int)[:, None]
+
+    moe.classifier._predict = classify
+    X = ctx.matrix("x", ns, n_in)
+    _box(ctx, elems(X))
+    query = X[0] if ns == 1 else X
+    pred = moe.predict(query)
+    jac = moe.predict_jacobian(query)
+    ctx.observe("predict", pred)
+    ctx.observe("jacobian", jac)
+    if not (check_shape(ctx, "moe.predict", pred, (n_out,) if ns == 1 else (ns, n_out))
+            and check_shape(ctx, "moe.predict_jacobian", jac, (n_out, n_in) if ns == 1 else (ns, n_out, n_in))):
+        return
+    preds, jacs = ([pred], [jac]) if ns == 1 else ([pred[s] for s in range(ns)], [jac[s] for s in range(ns)])
+    for s in range(ns):
+        x, expert = X[s], moe.regress_models[classes[s]]
+        xs = elems(x)
+        # oracle: the chosen expert's public prediction at the (MoE-level transformed) point, MoE-level output scaling undone
+        xt = _affine(moe.transformer["inputs"], xs) if "inputs" in moe.transformer else xs
+        local = elems(expert.predict(ctx.array(xt)))
+        expected = _affine(moe.transformer["outputs"], local, inverse=True) if "outputs" in moe.transformer else local
+        for i, got in enumerate(elems(preds[s])):
+            ctx.check(f"moe: predict{s}[{i}] == prediction of the expert of class {classes[s]}", same(ctx, got, expected[i]))
+        current["classes"] = [classes[s]]  # finite differences (concrete mode) re-evaluate a single sample with its class
+        ref, tol = ref_jacobian(ctx, moe.predict, x, cfg, values=preds[s])
+        current["classes"] = list(classes)
+        check_jac(ctx, f"moe: predict_jacobian{s} == d predict/dx (class {classes[s]})", jacs[s], ref, tol)
+    if cfg.get("discipline") and ns == 1:
+        from gemseo.core.discipline import Discipline
+        from gemseo.disciplines.surrogate import SurrogateDiscipline
+
+        del moe.classifier._predict  # the constructor evaluates the Jacobian at the (concrete) default inputs
+        ctx.patch(SurrogateDiscipline, "default_grammar_type", Discipline.GrammarType.SIMPLE, symbolic_only=False)
+        disc = SurrogateDiscipline(moe)
+        disc.set_cache(Discipline.CacheType.NONE)
+        moe.classifier._predict = classify
+        out = disc.execute({"x": X[0].copy()})
+        dj = disc.linearize({"x": X[0].copy()}, compute_all_jacobians=True)
+        row = 0
+        for name, size in (("y", 1), ("z", 2)):
+            if check_shape(ctx, f"moe discipline: execute[{name}]", out[name], (size,)) and check_shape(
+                    ctx, f"moe discipline: linearize[{name}][x]", dj[name]["x"], (size, n_in)):
+                ctx.check_eq(f"moe discipline: execute[{name}] == predict", out[name], preds[0][row:row + size])
+                ctx.check_eq(f"moe discipline: linearize[{name}][x] == predict_jacobian", dj[name]["x"], jacs[0][row:row + size])
+            row += size
+
+
+# ------------------------------------------------------------------------------------------------------------
 # the differentiator itself (trusted base): closed forms + sympy
 # ------------------------------------------------------------------------------------------------------------
 def h_diff(ctx, cfg):
@@ -607,6 +717,16 @@ def configs(tier):
         # the empty pipeline returns a (d, d) identity also for 2-D data (broadcastable, not per-sample): shape not asserted there
         for ndim in ((1, 2) if spec != ["Pipeline"] else (1,)):
             out.append(("transformer", dict(transformer=spec, fit=fit, ndim=ndim, **extra)))
+    # ---- mixture of experts (hard classification, class chosen by the solver) ------------------------------------------
+    scal = {"inputs": "MinMax", "outputs": "MinMax"}
+    for expert in ("LinearRegressor", "PolynomialRegressor"):
+        for etr in ({}, scal, {"inputs": "Standard"}):
+            for mtr in ("none", "default"):
+                if not thorough and etr == {"inputs": "Standard"} and mtr == "default":
+                    continue
+                out.append(("moe", dict(expert=expert, expert_transformer=etr, moe_transformer=mtr, **extra)))
+        out.append(("moe", dict(expert=expert, expert_transformer=scal, moe_transformer="none", samples=2, **extra)))
+        out.append(("moe", dict(expert=expert, expert_transformer=scal, moe_transformer="default", discipline=True, **extra)))
     # ---- surrogate discipline ------------------------------------------------------------------------------------
     for cfg in [dict(model="linear", data="ab_yz", transformer="default"), dict(model="poly", data="ab_yz", transformer={}),
                 dict(model="poly", data="2in2out", transformer=TRANSFORMERS["std_pipe"]),
@@ -617,4 +737,4 @@ def configs(tier):
     return out
 
 
-HARNESSES = {"kernel": h_kernel, "kernel_centre": h_kernel_centre, "model": h_model, "transformer": h_transformer, "surrogate": h_surrogate, "diff": h_diff}
+HARNESSES = {"kernel": h_kernel, "kernel_centre": h_kernel_centre, "model": h_model, "transformer": h_transformer, "surrogate": h_surrogate, "moe": h_moe, "diff": h_diff}
